@@ -165,3 +165,22 @@ Proof.
   - vm_compute. reflexivity.
   - eexists. eexists. split; [vm_compute; reflexivity|]. split; [vm_compute; reflexivity|]. split; vm_compute; reflexivity.
 Qed.
+
+(** * Full statement on the current tree.
+    [psl_default_normalised] is GENERATED from checker.rs on every run (tools/gen/gen_c07_flags.py). Since the repair
+    4ea555f it is [true], so [pages_ok] holds for every collection and theorem 2 holds at FULL strength as written in
+    its comment: for resource-free kinds of well-formed acyclic collections the checker accepts exactly the
+    component-model subtype pairs.  A change that brings the [Option] comparison back regenerates the flag as [false]
+    and this proof no longer checks. *)
+Theorem algo_iff_declarative : forall at_ bt ra rb a b F,
+  wf_types at_ ra -> wf_types bt rb -> (t_tag at_ = t_tag bt -> at_ = bt) ->
+  kind_ok at_ a -> kind_ok bt b -> (krank ra a < F)%nat -> (krank rb b < F)%nat ->
+  exists ta tb, unfold F at_ a = Some ta /\ unfold F bt b = Some tb /\
+                (resfree ta = true -> resfree tb = true -> (check F at_ a bt b = Ok tt <-> SubCM ta tb)).
+Proof.
+  intros at_ bt ra rb a b F Wa Wb Ht Ka Kb Ra Rb.
+  destruct (algo_iff_declarative_partial at_ bt ra rb a b F Wa Wb Ht Ka Kb Ra Rb) as [ta [tb [Ua [Ub [_ H]]]]].
+  exists ta, tb. split; [exact Ua|]. split; [exact Ub|]. intros Fa Fb. destruct (H Fa Fb) as [S C].
+  split; [exact S|]. apply C; left; reflexivity.
+Qed.
+Print Assumptions algo_iff_declarative.
